@@ -18,6 +18,7 @@ LEVEL = 'exploration'
 RULE = ('(a) T1/T2/T3/T4/T5 netlists x build styles x all sequences of length <= 2 over {copy, pickle, eliminate_1to1_forks}; '
         '(b) implementation shapes (all bench netlists with <= 2 gates from {AND2, INV1, BUF1} over <= 3 inputs and <= 2 outputs incl. outputs read '
         'internally, ignored inputs, inputs with many readers, no gates) x every subset of connected instance pins x 3 contexts; '
+        'every transformation that deletes nodes is followed on the node list (deletion trace) and the circuits include ones whose last node is a state element; '
         '(c) every built-in library cell name x pin subsets (quick: all connected, each single pin open, only one output connected, seed-selected slice of all subsets; '
         'thorough: all subsets) ; distinct_nontrivial = distinct (case, truth tables) signatures with a non-constant function')
 ASSUMPTIONS = ['truth tables are computed by the reference graph evaluator (mc/ref.py); unconnected instance inputs become unconnected gate pins (read 0)',
@@ -28,13 +29,17 @@ LIBS = ['GSC180', 'NANGATE', 'NANGATE_ZN', 'SAED32', 'SAED90']
 
 # ---------------------------------------------------------------- helpers
 
-def tt(circuit, out_names=()):
+def tt(circuit, out_names=(), var_order=None):
     """Truth tables of a kyupy circuit over its inputs and state elements.
     Returns (variable names, {observation name: int table}).  Ports named in out_names are outputs even
-    when nothing drives them."""
+    when nothing drives them.  var_order: variable names fixing the order of the table variables (default: s_nodes order)."""
     snodes = circuit.s_nodes
     io = list(circuit.io_nodes)
     srcs = [n for n in io if not any(l is not None for l in n.ins) and n.name not in out_names] + [n for n in snodes[len(io):]]
+    if var_order is not None:
+        vname = lambda n: ('s:' if ref.is_state(n.kind) else 'i:') + n.name
+        if sorted(vname(n) for n in srcs) == sorted(var_order):
+            srcs = sorted(srcs, key=lambda n: var_order.index(vname(n)))
     names = [('s:' if ref.is_state(n.kind) else 'i:') + n.name for n in srcs]
     nv = len(srcs)
     npat = 1 << nv
@@ -51,6 +56,55 @@ def tt(circuit, out_names=()):
 
 
 def snames(c): return [n.name for n in c.s_nodes]
+
+
+class DeletionTrace:
+    """Follows the node list of one circuit while a transformation runs and replays every deletion on a shadow list with the
+    documented container semantics (the last element moves into the freed slot).  If the shadow equals the real list at
+    the end, every rearrangement of the node list is accounted for by deletions; state_moved counts the deletions that put a
+    state element into an earlier slot.  Used to tell the one recorded finding (known_findings.json: state elements change
+    their relative order because deletion moves the last node) from any other change of the port/state order."""
+    def __init__(self, c):
+        import kyupy.circuit as kc
+        self.kc, self.lst, self.shadow = kc, c.nodes, list(c.nodes)
+        self.conform, self.state_moved, self.deletions = True, 0, 0
+
+    def _sync(self):
+        n = len(self.shadow)
+        if len(self.lst) < n or any(a is not b for a, b in zip(self.shadow, self.lst)): self.conform = False
+        else: self.shadow.extend(self.lst[n:])       # nodes appended since the last event
+
+    def __enter__(self):
+        self.orig = self.kc.IndexList.__delitem__
+        tr = self
+        def traced(lst, index):
+            if lst is tr.lst:
+                tr._sync()
+                if not isinstance(index, int) or not 0 <= index < len(tr.shadow): tr.conform = False
+                else:
+                    last = tr.shadow.pop()
+                    if index < len(tr.shadow):
+                        tr.shadow[index] = last
+                        if ref.is_state(last.kind): tr.state_moved += 1
+                    tr.deletions += 1
+            tr.orig(lst, index)
+        self.kc.IndexList.__delitem__ = traced
+        return self
+
+    def __exit__(self, *exc):
+        self.kc.IndexList.__delitem__ = self.orig
+        self._sync()
+        if len(self.shadow) != len(self.lst): self.conform = False
+        return False
+
+    def explains(self, before, after, n_ports):
+        """the s_nodes name list changed from before to after: is it only the relative order of state elements, and is every
+        rearrangement of the node list a deletion that moved the last node?"""
+        return (self.conform and self.state_moved > 0 and sorted(before) == sorted(after)
+                and before[:n_ports] == after[:n_ports])
+
+
+FINDING_SUFFIX = '/state-order/last-node-moved-by-deletion'
 
 
 TRANSFORMS = ['copy', 'pickle', 'elim']
@@ -73,11 +127,22 @@ def check_a(res, case):
         c = b.circuit
         names0, obs0 = tt(c)
         sn0 = snames(c)
+        reordered = False
+        if 'elim' in case['seq'] and ref.is_state(c.nodes[-1].kind): res.count('a_elim_state_last')
         for t in case['seq']:
-            c = apply_t(c, t)
-        names1, obs1 = tt(c)
-        if snames(c) != sn0:
-            res.violation(key + '/names', case, f'port/state names changed: {sn0} -> {snames(c)}')
+            before = snames(c)
+            nports = len(c.io_nodes)
+            with DeletionTrace(c) as tr:
+                c = apply_t(c, t)
+            after = snames(c)
+            if after != before:
+                if t == 'elim' and tr.explains(before, after, nports):
+                    res.violation(f'C10/a/elim{FINDING_SUFFIX}', case, f'eliminate_1to1_forks changed the order of the state elements: {before} -> {after} '
+                                  f'({tr.state_moved} deletion(s) moved a state element from the end of the node list into the freed slot) {nl}')
+                    reordered = True
+                else:
+                    res.violation(key + '/names', case, f'port/state names changed by {t}: {before} -> {after}')
+        names1, obs1 = tt(c, var_order=names0 if reordered else None)
         if names1 != names0 or obs1 != obs0:
             diff = [k for k in obs0 if obs1.get(k) != obs0[k]] + [k for k in obs1 if k not in obs0]
             res.violation(key + '/function', case, f'function changed at {diff[:3]} after {case["seq"]}: {nl}')
@@ -231,10 +296,13 @@ def check_c(res, case):
         for j in range(len(outs)):
             if conn_out[j]:
                 f = Node(c, f'y{j}'); Line(c, (inst, j), f); Line(c, f, ys[j])
+        last = Node(c, 'uz', 'dff')       # a second unrelated state element, the LAST node of the list
+        Line(c, xe, last)
         io0 = [n.name for n in c.io_nodes]
         was_state = ref.is_state(name)
         sn0 = snames(c)
-        c.resolve_tlib_cells(lib)
+        with DeletionTrace(c) as tr:
+            c.resolve_tlib_cells(lib)
         for what, msg in invariants(c):
             res.violation(key + f'/invariant-{what}', case, msg)
         if [n.name for n in c.io_nodes] != io0:
@@ -253,16 +321,24 @@ def check_c(res, case):
         def mapped(n): return 'u1' if n is designated else f'u1~{n.name}'
         # observability: a state element of the implementation survives iff it can reach a connected output or another kept state element; be lenient: compare only what exists
         names, obs = tt(c, out_names=[y.name for y in ys])
-        var_names = [f'i:x{k}' for k in range(len(ins))] + ['i:xe', 's:u0'] + [f's:{mapped(n)}' for n in impl_states]
+        var_names = [f'i:x{k}' for k in range(len(ins))] + ['i:xe', 's:u0', 's:uz'] + [f's:{mapped(n)}' for n in impl_states]
         present_states = [v for v in names if v.startswith('s:')]
-        exp_states_all = ['s:u0'] + [f's:{mapped(n)}' for n in impl_states]
-        if was_state and designated is not None and ref.is_state(designated.kind) and any(conn_out):
-            if snames(c)[:len(sn0)] != sn0 and sn0 != [x for x in snames(c) if x in sn0]:
-                res.violation(key + '/names', case, f'port/state order changed: {sn0} -> {snames(c)}')
+        exp_states_all = ['s:u0', 's:uz'] + [f's:{mapped(n)}' for n in impl_states]
+        # relative order of the ports and state elements that exist before and after
+        sn1 = snames(c)
+        rel0, rel1 = [x for x in sn0 if x in set(sn1)], [x for x in sn1 if x in set(sn0)]
+        if rel0 != rel1:
+            if tr.explains(rel0, rel1, len(io0)):
+                res.violation(f'C10/c/resolve{FINDING_SUFFIX}', case, f'resolve_tlib_cells changed the order of the state elements: {sn0} -> {sn1} '
+                              f'({tr.state_moved} deletion(s) moved a state element from the end of the node list into the freed slot)')
+            else:
+                res.violation(key + '/names', case, f'port/state order changed: {sn0} -> {sn1}')
+        if tr.deletions: res.count('c_with_node_deletions')
         if [v for v in names if v.startswith('i:')] != var_names[:len(ins) + 1]:
             res.violation(key + '/inputs', case, f'inputs changed: {names}'); return
-        if not set(present_states) <= set(exp_states_all) or 's:u0' not in present_states:
-            res.violation(key + '/states', case, f'state elements {present_states} expected a subset of {exp_states_all} containing s:u0'); return
+        # every state element of the implementation is a state element of the circuit afterwards, whether or not anything reads it
+        if set(present_states) != set(exp_states_all):
+            res.violation(key + '/states', case, f'state elements {present_states} expected {exp_states_all}'); return
         # evaluate the implementation with the variable order of the resolved circuit
         nv = len(names); npat = 1 << nv; mask = (1 << npat) - 1
         col = {nm: sum(1 << p for p in range(npat) if (p >> k) & 1) for k, nm in enumerate(names)}
@@ -275,7 +351,7 @@ def check_c(res, case):
                 assign[n.index] = col.get(f's:{mapped(n)}', 0)
             gate = lambda kind, pp: ref.gate2(kind, pp, mask)
             ivals = ref.graph_eval(impl, assign, gate, lambda v: ~v & mask, 0)
-            e = {'d:u0': col['i:xe']}
+            e = {'d:u0': col['i:xe'], 'd:uz': col['i:xe']}
             for j, n in enumerate(impl_out_nodes):
                 if conn_out[j]:
                     v = ivals[n.ins[0].index]
@@ -453,7 +529,7 @@ def replay(case):
 
 
 def finish(agg, tier):
-    need = ['a_elim', 'b_cases', 'b_unconnected_input', 'c_cases', 'c_open_pin', 'd_cases']
+    need = ['a_elim', 'a_elim_state_last', 'b_cases', 'b_unconnected_input', 'c_cases', 'c_open_pin', 'c_with_node_deletions', 'd_cases']
     missing = [k for k in need if not agg.counters.get(k)]
     if missing: raise common.HarnessError(f'vacuity guard: {missing} zero')
     return {}
